@@ -4,9 +4,12 @@
 
    S|progs=<ops c0>/<ops c1>/...|sched=<c>,<c>,...
         op = R <p> <min> <max> <rows> <size> | D <p> | C <tgt> [<src>,<src>,...]    (ops separated by ';')
-        sched = the clients in the order in which they perform one object-store request each
+        sched = the clients in the order in which they perform one object-store request each;
+                <c>b / <c>a inject a transport fault into that request (fails before / after taking
+                effect); fault steps run on Model/CasFault.v, which no theorem covers
      -> steps=<c>:<kind>,...|res=<r;r>/<r>|vers=<version>#<version>...|final=<set>
-        kind = G | Pc+ | Pc- | Pu+ | Pu-        r = ok | err | retries
+        kind = G | Pc+ | Pc- | Pu+ | Pu-  (faults: Gx, Pcx/Pux, Pc!/Pu! applied+error, Pc~/Pu~)
+        r = ok | err | retries | fault
         version = <p>:<min>:<max>:<rows>:<size>:<level>,...(sorted by p)@<bucket>=<p>.<p>,...(sorted by bucket)
         final = <p>:<min>:<max>:<rows>:<size>,... sorted by p  (list_chunks at quiescence)            *)
 
@@ -52,11 +55,20 @@ let show_list (l : (path * cmeta) list) : string =
                      (string_of_n m.m_rows) (string_of_n m.m_size))) l in
   String.concat "," (List.map snd (List.sort compare items))
 
-let show_fin (f : n fin) : string =
+let show_fin (f : n option fin) : string =
   match f with
   | FCommit _ -> "ok"
-  | FAbort _ -> "err"
+  | FAbort (Some _) -> "err"
+  | FAbort None -> "fault"
   | FRetries -> "retries"
+
+let parse_step (t : string) : int * faction =
+  let t = String.trim t in
+  let n = String.length t in
+  match t.[n - 1] with
+  | 'b' -> (int_of_string (String.sub t 0 (n - 1)), FailBefore)
+  | 'a' -> (int_of_string (String.sub t 0 (n - 1)), FailAfter)
+  | _ -> (int_of_string t, Proceed)
 
 let run_sched (fs : string list) : string =
   let progs : cop list array =
@@ -64,11 +76,11 @@ let run_sched (fs : string list) : string =
   let ncl = Array.length progs in
   let rec idx (c : nat) (i : int) : int = match c with O -> i | S c' -> idx c' (i + 1) in
   let pf (c : nat) : cop list = let i = idx c 0 in if i < ncl then progs.(i) else [] in
-  let m = ref (cat_init None pf) in
+  let m = ref (cat_finit None pf) in
   let results = Array.make ncl [] in
   let steps = ref [] in
   List.iter (fun t ->
-    let c = int_of_string (String.trim t) in
+    let (c, act) = parse_step t in
     let cn = nat_of_int c in
     let before = !m in
     let cl = before.s_cl cn in
@@ -77,11 +89,14 @@ let run_sched (fs : string list) : string =
       let kind = match cl.c_pc with
         | AfterLoad (_, _, snap, _, _, _) -> (match snap with None -> "Pc" | Some _ -> "Pu")
         | _ -> "G" in
-      let after = cat_step before (Req cn) in
+      let after = cat_fstep before (FReq (cn, act)) in
       m := after;
+      let applied = List.length after.s_log > List.length before.s_log in
       let kind =
-        if kind = "G" then kind
-        else if List.length after.s_log > List.length before.s_log then kind ^ "+" else kind ^ "-" in
+        match act with
+        | Proceed -> if kind = "G" then kind else if applied then kind ^ "+" else kind ^ "-"
+        | FailBefore -> kind ^ "x"
+        | FailAfter -> if kind = "G" then kind ^ "x" else if applied then kind ^ "!" else kind ^ "~" in
       steps := Printf.sprintf "%d:%s" c kind :: !steps;
       let d0 = cl.c_done and d1 = (after.s_cl cn).c_done in
       if List.length d1 > List.length d0 then begin
